@@ -15,3 +15,4 @@ import GarbleVerif.Props.C15
 import GarbleVerif.Props.C03
 import GarbleVerif.Props.C09
 import GarbleVerif.Props.C02
+import GarbleVerif.Props.C11
